@@ -25,10 +25,18 @@ class ScriptSock:
         k = min(o["k"], len(data))
         self.accepted += bytes(data[:k])
         return k
-    def recv(self, n, flags=0): raise socket.error(errno.EAGAIN, "EAGAIN")
+    def recv(self, n, flags=0):
+        r = self.rxscript.pop(0) if getattr(self, "rxscript", None) else None
+        if r == "data": return b"\x01\x02\x03"
+        if r == "eof": return b""
+        if r == "error":
+            self.fatal_seen = True                       # a receive error is a fatal socket error too
+            raise socket.error(errno.ECONNRESET, "ECONNRESET")
+        raise socket.error(errno.EAGAIN, "EAGAIN")
     def shutdown(self, how=None):
         if how is None or how == socket.SHUT_RDWR or how == socket.SHUT_WR: self.shut = True
-    def close(self): self.shut = True
+    def close(self): self.shut = True; self.fd_closed = True
+    fd_closed = False
     def fileno(self): return -1
     def getpeername(self): return ("peer", 1)
 
@@ -45,7 +53,7 @@ class C20(Check):
     prop_module = "PoxModel.Properties.C20"
     lean_targets = ["drv_c20"]
     driver = "drv_c20"
-    theorems = ["Pox.C20.ioworker_stream", "Pox.C20.ioworker_drained", "Pox.C20.ioworker_after_fatal", "Pox.C20.ctl_stream",
+    theorems = ["Pox.C20.ioworker_stream", "Pox.C20.ioworker_drained", "Pox.C20.ioworker_after_fatal", "Pox.C20.ioworker_unguarded_defect", "Pox.C20.ctl_stream",
                 "Pox.C20.ctl_quiescent", "Pox.C20.ctl_after_fatal", "Pox.C20.ctl_no_attempt_after_fatal"]
     anchors = [("pox/lib/ioworker/__init__.py", "IOWorker._do_send"), ("pox/lib/ioworker/__init__.py", "IOWorker._consume_send_buf"),
                ("pox/lib/ioworker/__init__.py", "IOWorker.send"), ("pox/lib/ioworker/__init__.py", "RecocoIOWorker.send_fast"), ("pox/lib/ioworker/__init__.py", "RecocoIOWorker.send"),
@@ -65,7 +73,7 @@ class C20(Check):
     trusted_base = ["model Model/SendPath.lean hand-written from ioworker/__init__.py and of_01.py Connection.send/DeferredSender; tied by this correspondence run",
                     "other connections abstracted to an environment that can only set/clear the global `sending` flag under the lock"]
     assumptions = ["messages passed to send are non-empty", "GIL atomicity of the modelled steps; RLock mutual exclusion", "send on a shut-down socket fails"]
-    rule = ("case A = op sequence over {send, send_fast(outcome), loop iteration(outcome)}; case B = action sequence over {Connection.send(data, outcome), sender iteration(outcomes), "
+    rule = ("case A = op sequence over {send, send_fast(outcome), loop iteration(outcome), loop iteration with the worker readable AND writable (data / end of stream / receive error, then outcome)}; case B = action sequence over {Connection.send(data, outcome), sender iteration(outcomes), "
             "other connection defers / is flushed}; corpus = all sequences of 3 messages x 4 calls over 6 outcomes (A) and all B sequences of length <= 4 over a 9-letter alphabet; "
             "non-trivial = a partial write, EAGAIN or fatal outcome was consumed")
 
@@ -77,6 +85,11 @@ class C20(Check):
         class DS(of_01.DeferredSender):
             def start(self): pass                         # the thread body is driven by the harness
         self.DS = DS
+        # which IOWorker variant is this tree?  Probed by behaviour (never by source shape): does _do_send still offer the
+        # buffer to the socket after _do_recv closed the worker earlier in the same pass?
+        self.guard_closed = True
+        probe = self._impl_a({"part": "A", "ops": [{"op": "send", "i": 0, "n": 2}, {"op": "pumprw", "rx": "error", "o": 0}]})
+        self.guard_closed = (probe["offered_after_fatal"] == 0)
 
     # ------------------------------------------------------------------ generators
     def corpus(self):
@@ -100,6 +113,13 @@ class C20(Check):
                                                       {"op": "pump", "o": o2, "more": more}, {"op": "send", "i": 2, "n": 5}, {"op": "pump", "o": 0}, {"op": "pump", "o": 0}]})
                     cases.append({"part": "A", "ops": [{"op": "sendfast", "i": 0, "n": 10, "o": o1, "more": more}, {"op": "pump", "o": o2, "more": more},
                                                       {"op": "sendfast", "i": 1, "n": 7, "o": o2, "more": more}, {"op": "pump", "o": 0}, {"op": "pump", "o": 0}]})
+        # A, the worker is readable and writable in the same pass: data / end of stream / a receive error, then the write
+        for rx in ("data", "eof", "error"):
+            for o1 in (0, 1, 3, 4):
+                for o2 in (0, 1, 4):
+                    for pre in ([], [{"op": "pump", "o": 1}], [{"op": "pumprw", "rx": "data", "o": 3}]):
+                        cases.append({"part": "A", "ops": [{"op": "send", "i": 0, "n": 6}] + pre + [{"op": "pumprw", "rx": rx, "o": o1}, {"op": "send", "i": 1, "n": 3},
+                                                          {"op": "pumprw", "rx": "data", "o": o2}, {"op": "pump", "o": 0}, {"op": "sendfast", "i": 2, "n": 2, "o": 0}, {"op": "pump", "o": 0}]})
         # B: all sequences of length <= 4 over a small alphabet
         alpha = [{"op": "send", "i": 0, "n": 5, "o": 0}, {"op": "send", "i": 1, "n": 5, "o": 2}, {"op": "send", "i": 2, "n": 3, "o": 3}, {"op": "send", "i": 3, "n": 3, "o": 4},
                  {"op": "flush", "outs": [0, 0, 0]}, {"op": "flush", "outs": [1]}, {"op": "flush", "outs": [0, 4]}, {"op": "envenq"}, {"op": "envdone"}]
@@ -121,7 +141,8 @@ class C20(Check):
                     r = rng.random()
                     if r < 0.3: ops.append({"op": "send", "i": k, "n": rng.choice([1, 2, 7, rng.randint(1, 40)])})
                     elif r < 0.55: ops.append({"op": "sendfast", "i": k, "n": rng.choice([1, 2, 7, rng.randint(1, 40)]), "o": self._rout(rng)})
-                    else: ops.append({"op": "pump", "o": self._rout(rng)})
+                    elif r < 0.85: ops.append({"op": "pump", "o": self._rout(rng)})
+                    else: ops.append({"op": "pumprw", "rx": rng.choice(["data", "data", "eof", "error"]), "o": self._rout(rng)})
                     if ops[-1]["op"] != "send" and rng.random() < 0.3:          # what further calls in the same pass would get
                         ops[-1]["more"] = [self._rout(rng) for _ in range(rng.randint(1, 3))]
                 yield {"part": "A", "ops": ops + [{"op": "pump", "o": 0}] * 2}
@@ -190,6 +211,14 @@ class C20(Check):
         closes = []
         w.close_handler = lambda worker: closes.append(1)
         g = loop.run()
+        def answer(sel, rl, wl):
+            # what the scheduler's select would do with this request: a socket that has been close()d is a bad file
+            # descriptor, select raises, and the exception is thrown into the loop
+            for lst in sel._args[:3]:
+                for x in lst:
+                    if getattr(getattr(x, "socket", None), "fd_closed", False):
+                        return g.throw(OSError(errno.EBADF, "Bad file descriptor"))
+            return g.send((rl, wl, []))
         started = [False]                               # the loop's first pass (which registers the worker) happens at the first
         status = "ok"                                   # pump: sends and even a fatal send_fast error may precede it
         try:
@@ -200,6 +229,17 @@ class C20(Check):
                     sock.script = [self._o(op["o"])] + [self._o(o) for o in op.get("more", [])]
                     w.send_fast(data(op["i"], op["n"]))
                     sock.script = []
+                elif op["op"] == "pumprw":
+                    # one pass in which select reports the worker readable AND writable: _do_recv first, then _do_send
+                    if not started[0]:
+                        started[0] = True; sel = next(g)
+                    else:
+                        sel = g.send(([], [], []))
+                    rl, wl = sel._args[0], sel._args[1]
+                    sock.script = [self._o(op["o"])] + [self._o(o) for o in op.get("more", [])]
+                    sock.rxscript = [op["rx"]]
+                    sel = answer(sel, [w] if w in rl else [], [w] if w in wl else [])
+                    sock.script, sock.rxscript = [], []
                 else:
                     # close commands queued by worker.close() run at the start of the next iteration, i.e. before the next select
                     if not started[0]:
@@ -208,8 +248,10 @@ class C20(Check):
                         sel = g.send(([], [], []))
                     rl, wl, xl = sel._args[0], sel._args[1], sel._args[2]
                     sock.script = [self._o(op["o"])] + [self._o(o) for o in op.get("more", [])]
-                    sel = g.send(([], [w] if w in wl else [], []))
+                    sel = answer(sel, [], [w] if w in wl else [])
                     sock.script = []
+        except StopIteration:
+            status = "raise:nothing — the I/O loop serving every worker ended (select on a closed socket)"
         except Exception as e:
             status = "raise:" + type(e).__name__
         return {"accepted": sock.accepted.hex(), "send_buf": bytes(w.send_buf).hex(), "closed": bool(w.closed), "close_events": len(closes),
@@ -289,8 +331,9 @@ class C20(Check):
             for op in case["ops"]:
                 if op["op"] == "send": ops.append({"op": "send", "d": data(op["i"], op["n"]).hex()})
                 elif op["op"] == "sendfast": ops.append(dict(op="sendfast", d=data(op["i"], op["n"]).hex(), **self._o(op["o"])))
+                elif op["op"] == "pumprw": ops.append(dict(op="pumprw", rx=op["rx"], **self._o(op["o"])))
                 else: ops.append(dict(op="pump", **self._o(op["o"])))
-            return {"part": "A", "ops": ops}
+            return {"part": "A", "ops": ops, "guard": self.guard_closed}
         acts, total = [], 0
         for op in case["ops"]:
             if op["op"] == "send":
@@ -316,7 +359,9 @@ class C20(Check):
         return {k: obs[k] for k in ("accepted", "pending", "disc", "sending", "offered_after_disc")}
 
     def model_obs(self, case, resp):
-        return resp
+        if "error" in resp: return resp
+        keys = ("accepted", "send_buf", "closed", "close_events", "offered") if case["part"] == "A" else ("accepted", "pending", "disc", "sending", "offered_after_disc")
+        return {k: resp[k] for k in keys}
 
     # ------------------------------------------------------------------ the property on the implementation
     def oracle(self, case, obs):
